@@ -27,6 +27,15 @@ FUNCS = [
     ("distributed_shampoo/distributed_shampoo.py", "DistributedShampoo._apply_decoupled_weight_decay"),
     ("distributed_shampoo/distributed_shampoo.py", "DistributedShampoo._update_momentum"),
     ("distributed_shampoo/distributed_shampoo.py", "DistributedShampoo.step"),
+    ("distributed_shampoo/distributed_shampoo.py", "DistributedShampoo._instantiate_shampoo_preconditioner_list"),
+    ("distributed_shampoo/distributed_shampoo.py", "DistributedShampoo._instantiate_steps"),
+    ("distributed_shampoo/distributed_shampoo.py", "DistributedShampoo._instantiate_momentum"),
+    ("distributed_shampoo/distributed_shampoo.py", "DistributedShampoo._instantiate_filtered_grads"),
+    ("distributed_shampoo/utils/shampoo_preconditioner_list.py", "ShampooPreconditionerList.precondition"),
+    ("distributed_shampoo/utils/shampoo_preconditioner_list.py", "ShampooPreconditionerList._amortized_computation"),
+    ("distributed_shampoo/utils/shampoo_preconditioner_list.py", "BaseShampooPreconditionerList._update_factor_matrices"),
+    ("distributed_shampoo/utils/shampoo_preconditioner_list.py", "BaseShampooPreconditionerList._precondition_grad"),
+    ("distributed_shampoo/utils/shampoo_preconditioner_list.py", "BaseShampooPreconditionerList._get_inverse_roots_from_override_with_high_order_default"),
     ("distributed_shampoo/utils/shampoo_distributor.py", "Distributor.update_params"),
     ("distributed_shampoo/utils/shampoo_preconditioner_list.py", "AdagradPreconditionerList.update_preconditioners"),
     ("distributed_shampoo/utils/shampoo_preconditioner_list.py", "AdagradPreconditionerList.precondition"),
@@ -55,6 +64,7 @@ def cases(tier):
                     cs.append(f"group_step/{graft}/{alias}/{dec}/{fg}")
     from checks import plist
     cs += plist.shampoo_cases(tier)
+    cs += ["wiring/instantiate", "wiring/defaults"]
     for a in "01":
         for b in "01":
             for c in "01":
@@ -228,6 +238,12 @@ def replay_file(doc):
 def run_case(case, tier, seed):
     if case.startswith("group_step/"):
         return _group_step_case(case, tier)
+    if case == "wiring/instantiate":
+        from checks import wiring
+        return wiring.run(case, tier)
+    if case == "wiring/defaults":
+        from checks import wiring
+        return wiring.run_defaults(case, tier)
     if case.startswith("plist/"):
         from checks import plist
         return plist.run_list_case(case, tier, PROP)
